@@ -169,56 +169,61 @@ def facts_lookup(facts, pkg, name):
     return None
 
 
-def facts_at(facts, pkg, t, ipath, depth=0):
-    """the IR type (facts) an instance path leads to, following references; None when it cannot be followed"""
+def facts_at(facts, pkg, t, ipath, depth=0, nullable=False):
+    """the IR types (facts) an instance path can lead to, following references and every union branch.
+    Each result carries "nullable": true when the position or a reference on the way to it is nullable."""
     if t is None or depth > 60:
-        return None
+        return []
+    nullable = nullable or bool(t.get("nullable"))
     while t.get("kind") == "ref":
         t2 = facts_lookup(facts, t.get("refpkg", pkg), t.get("ref"))
         if t2 is None:
-            return t
+            return [dict(t, nullable=nullable)]
         t = t2
+        nullable = nullable or bool(t.get("nullable"))
         depth += 1
         if depth > 60:
-            return None
-    if not ipath:
-        return t
-    head, rest = ipath[0], ipath[1:]
+            return []
     k = t.get("kind")
+    if k == "disjunction":
+        out = []
+        for b in t.get("branches") or []:
+            out += facts_at(facts, pkg, b, ipath, depth + 1, nullable)
+        return out
+    if not ipath:
+        return [dict(t, nullable=nullable)]
+    head, rest = ipath[0], ipath[1:]
     if k == "struct":
+        out = []
         for f in t.get("fields") or []:
             if f["name"] == head:
-                return facts_at(facts, pkg, f["t"], rest, depth + 1)
-        return None
+                out += facts_at(facts, pkg, f["t"], rest, depth + 1)
+        return out
     if k in ("array", "map"):
         return facts_at(facts, pkg, t.get("of"), rest, depth + 1)
-    if k == "disjunction":
-        for b in t.get("branches") or []:
-            r = facts_at(facts, pkg, b, ipath, depth + 1)
-            if r is not None:
-                return r
-    return None
+    return []
 
 
 def rejection_cause(dv, facts, pkg, tname):
-    """why the emitted schema rejects an encoded value: attributed to the IR type at the failing position"""
+    """why the emitted schema rejects an encoded value: attributed to the IR type(s) at the failing position"""
     root = facts_lookup(facts, pkg, tname)
-    # the error sits AT ipath; for `required`/`additionalProperties` errors the instance is the enclosing object
-    t = facts_at(facts, pkg, {"kind": "ref", "ref": tname, "refpkg": pkg}, dv.get("ipath") or []) if root is not None else None
-    kw, it = dv.get("kw"), dv.get("itype")
-    unresolved = t is not None and t.get("kind") == "ref"
+    cands = facts_at(facts, pkg, {"kind": "ref", "ref": tname, "refpkg": pkg}, dv.get("ipath") or []) if root is not None else []
+    kw, it, sval = dv.get("kw"), dv.get("itype"), dv.get("sval")
     if kw == "$ref-unresolvable":
         return "dangling-$ref"
-    if kw == "type" and t is not None and t.get("kind") == "scalar" and t.get("scalar") == "any":
+    if kw == "type" and sval == '"object"' and any(t.get("kind") == "scalar" and t.get("scalar") == "any" for t in cands):
         return "any-emitted-as-type-object"
-    if kw == "type" and t is not None and t.get("kind") == "composable_slot":
+    if kw == "type" and sval == '"object"' and any(t.get("kind") == "composable_slot" for t in cands):
         return "composable-slot-emitted-as-type-object"
     if it == "null" and kw in ("type", "enum", "const", "anyOf"):
-        if t is not None and t.get("nullable"):
+        if any(t.get("nullable") for t in cands):
             return "nullable-not-expressed"
-        if t is not None and t.get("kind") in ("array", "map"):
+        if any(t.get("kind") in ("array", "map") for t in cands):
             return "nil-collection-encoded-as-null"
-        return "null-for-non-nullable:" + (t.get("kind", "?") if t else "?")
+        return "null-for-non-nullable:" + (cands[0].get("kind", "?") if cands else "?")
+    if kw == "type" and it == "string" and sval == '"array"' and \
+            any(t.get("kind") == "array" and (t.get("of") or {}).get("scalar") == "uint8" for t in cands):
+        return "uint8-array-encoded-as-base64-string"
     if kw == "additionalProperties":
         return "member-not-declared"
     if kw == "required":
@@ -226,12 +231,12 @@ def rejection_cause(dv, facts, pkg, tname):
     if kw in ("minimum", "maximum", "exclusiveMinimum", "exclusiveMaximum", "minLength", "maxLength", "multipleOf"):
         return "constraint:" + kw
     if kw == "format":
-        return "format:" + str(dv.get("sval"))
+        return "format:" + str(sval)
     if kw in ("enum", "const"):
         return kw + "-value-not-allowed"
     if kw == "type":
-        return "type-mismatch:%s-for-%s" % (it, (t.get("scalar") or t.get("kind")) if t else "?")
-    return "other:" + str(kw) + (":unresolved" if unresolved else "")
+        return "type-mismatch:%s-for-%s" % (it, sval)
+    return "other:" + str(kw)
 
 
 # ---------------------------------------------------------------------- IR-level inputs
@@ -258,6 +263,24 @@ def ir_resolves(schemas):
         if s.get("entry") and (s["pkg"], s["entry"]) not in objs:
             return False
     return all(r in objs for r in refs)
+
+
+def ir_alias_acyclic(schemas):
+    """no object is (transitively) an alias of itself: such a type denotes nothing"""
+    alias = {}
+    for s in schemas:
+        for o in s["objects"]:
+            t = o["type"]
+            if t.get("k") == "ref":
+                alias[(s["pkg"], o["name"])] = (t.get("pkg"), t.get("name"))
+    for start in alias:
+        cur, seen = start, set()
+        while cur in alias:
+            if cur in seen:
+                return False
+            seen.add(cur)
+            cur = alias[cur]
+    return True
 
 
 def ir_names_unique(schemas):
@@ -489,7 +512,7 @@ def run(ctx, verdict, replay=None, model_ok=True):
         j["outdir"] = os.path.join(ctx.scratch, "c12ir", j["id"])
     langs = [{"jsonschema": {}}, {"openapi": {}}]
     ir_res = gencode_out.run_genir(ctx, [{"id": j["id"], "schemas": j["schemas"], "outdir": j["outdir"], "output": {"types": True},
-                                          "langs": langs, "irlangs": ["jsonschema"]} for j in ir_jobs], timeout=120)
+                                          "langs": langs, "irlangs": ["jsonschema"], "timeout_s": 5} for j in ir_jobs], timeout=120)
     stuck = [n for n, r in enumerate(ir_res) if r is None or r["status"] in ("TIMEOUT",)]
     if stuck:
         # the context of a run that did not come back: chains only
@@ -518,7 +541,7 @@ def run(ctx, verdict, replay=None, model_ok=True):
             c = j.get("ctx_only")
             units.append({"stream": "B", "sid": j["id"], "pkg": None, "hang": True, "job": job,
                           "ctx": ((c or {}).get("ir") or {}).get("jsonschema", ""),
-                          "pkgs": [s["pkg"] for s in j["schemas"]], "resolves": ir_resolves(j["schemas"])})
+                          "pkgs": [s["pkg"] for s in j["schemas"]], "resolves": ir_resolves(j["schemas"]) and ir_alias_acyclic(j["schemas"])})
             continue
         if r["status"] != "OK":
             continue
@@ -532,7 +555,7 @@ def run(ctx, verdict, replay=None, model_ok=True):
                           "oa_path": os.path.join(j["outdir"], "openapi", s["pkg"] + ".openapi.json") if lo.get("status") == "OK" else None,
                           "lang_status": {"jsonschema": lj.get("status"), "openapi": lo.get("status")},
                           "lang_message": {"jsonschema": lj.get("message", ""), "openapi": lo.get("message", "")},
-                          "resolves": ir_resolves(j["schemas"]), "job": job})
+                          "resolves": ir_resolves(j["schemas"]) and ir_alias_acyclic(j["schemas"]), "job": job})
 
     budget = {"n": 60}
 
@@ -553,6 +576,9 @@ def run(ctx, verdict, replay=None, model_ok=True):
     rp_items, rp_owner = [], []
     for u in units:
         if u.get("hang"):
+            if not u["resolves"]:
+                count("emission-does-not-terminate(ill-formed input: dangling or cyclic alias)")
+                continue
             count("emission-does-not-terminate")
             report({"kind": "emission-does-not-terminate", "cause": "foreign-recursive-type" if len(u["pkgs"]) > 1 else "other"}, u)
             continue
@@ -627,20 +653,28 @@ def run(ctx, verdict, replay=None, model_ok=True):
         lk = "%s:loader=%s" % (kind, "ok" if r.get("loader") == "ok" else "error")
         loaders[lk] = loaders.get(lk, 0) + 1
         dangling_input = not u["resolves"]
+        local_names = {o["name"] for s_ in u["facts"] if s_["pkg"] == u["pkg"] for o in s_["objects"]}
+        clash = any(o["name"] in local_names for s_ in u["facts"] if s_["pkg"] != u["pkg"] for o in s_["objects"])
+
+        def refine(cause):
+            # a local alias named like its foreign target becomes a self-reference
+            if clash and cause in ("unresolved-ref", "meta-schema"):
+                return "definition-replaced-by-foreign-object-of-the-same-name"
+            return cause
         if r.get("loader") and r["loader"] != "ok":
-            cause = loader_cause(r["loader"])
+            cause = refine(loader_cause(r["loader"]))
             if not (dangling_input and cause in ("unresolved-ref", "meta-schema")):
                 count("loader-rejects")
                 report({"kind": "independent-loader-rejects-emitted-document", "format": kind, "cause": cause}, u, {"observed": r["loader"]})
         if kind == "openapi" and r.get("validate") and r["validate"] != "ok":
-            cause = loader_cause(r["validate"])
+            cause = refine(loader_cause(r["validate"]))
             if cause == "openapi-extra-keyword" and u.get("oa_ref_siblings"):
                 cause = "openapi-$ref-with-sibling-keywords"
             if not (dangling_input and cause in ("unresolved-ref", "meta-schema")):
                 count("openapi-validate-rejects")
                 report({"kind": "independent-loader-rejects-emitted-document", "format": kind, "cause": cause}, u, {"observed": r["validate"]})
         if r["status"] != "OK":
-            cause = "panic:" + loader_cause(r.get("message", "")) if r["status"] == "PANIC" else loader_cause(r.get("message", ""))
+            cause = "panic:" + loader_cause(r.get("message", "")) if r["status"] == "PANIC" else refine(loader_cause(r.get("message", "")))
             # cog's parser refusing what the independent loader already refused is the same failure
             if (r.get("loader") == "ok" and (kind != "openapi" or r.get("validate") == "ok")) or r["status"] == "PANIC":
                 if not (dangling_input and cause in ("unresolved-ref", "meta-schema")):
@@ -682,8 +716,12 @@ def run(ctx, verdict, replay=None, model_ok=True):
                 n_enc_ok += 1
                 continue
             cause = rejection_cause(dv, u["facts"], u["pkg"], it["type"])
-            rej_hist[cause] = rej_hist.get(cause, 0) + 1
             j = encoded[u["sid"]][0]
+            if cause not in ("any-emitted-as-type-object", "nullable-not-expressed", "uint8-array-encoded-as-base64-string"):
+                ch = changed_by_roundtrip(srcgen.loads(j["docs"][d_idx]), srcgen.loads(e), dv.get("ipath") or [])
+                if ch:
+                    cause = "value-changed-by-go-roundtrip:" + ch
+            rej_hist[cause] = rej_hist.get(cause, 0) + 1
             report({"kind": "encoded-value-rejected-by-emitted-schema", "format": "jsonschema", "cause": cause}, u,
                    {"source_document": j["docs"][d_idx], "encoded": e, "error": dv,
                     "job": dict(u["job"], type=j["type"], docs=[j["docs"][d_idx]])})
@@ -847,6 +885,33 @@ def ref_siblings(defs):
     for n, d in defs.items():
         walk(d, (n,))
     return out
+
+
+def changed_by_roundtrip(src, enc, ipath):
+    """the value at (a prefix of) the failing position is not what the source document had there: decoding and
+    re-encoding changed it (the subject of C01), which is what the emitted schema then rejects"""
+    a, b = src, enc
+    for p_ in list(ipath) + [None]:
+        if not srcgen.json_same(a, b) if not isinstance(a, (dict, list)) or not isinstance(b, (dict, list)) else type(a) is not type(b):
+            if a is None and b is not None:
+                return "null-replaced-by-zero-value"
+            if isinstance(a, (list, dict)) and not a and b is None:
+                return "empty-collection-became-null"
+            return "other"
+        if p_ is None:
+            return None
+        try:
+            if isinstance(a, list):
+                a, b = a[int(p_)], b[int(p_)]
+            elif isinstance(a, dict):
+                if p_ not in a and p_ in b:
+                    return "member-added"
+                a, b = a[p_], b[p_]
+            else:
+                return None
+        except (KeyError, IndexError, ValueError, TypeError):
+            return None
+    return None
 
 
 def _ir_kinds(x, out):
